@@ -38,13 +38,13 @@ def with_gamma(algo, gamma, lam=None):
     of the template is kept while the constructor's handling of the arguments stays under test)."""
     kw = {"gamma": float(gamma)}
     if lam is not None:
-        kw["gae_lambda"] = float(lam)
+        kw["gae_lambda"] = lam if isinstance(lam, int) else float(lam)  # an int (gae_lambda=1 / 0) stays an int, as a user types it
     if type(algo).__name__ == "PPO":
         kw.update(num_batches=1, num_epochs=1)
     made = type(algo)(num_envs=algo.num_envs, num_steps=algo.num_steps, **kw)
     algo = eqx.tree_at(lambda a: a.gamma, algo, jnp.asarray(made.gamma, dtype=float))
     if hasattr(algo, "gae_lambda"):
-        algo = eqx.tree_at(lambda a: a.gae_lambda, algo, jnp.asarray(made.gae_lambda, dtype=float))
+        algo = eqx.tree_at(lambda a: a.gae_lambda, algo, jnp.asarray(made.gae_lambda))  # dtype as stored (one extra compile for ints)
     return algo
 
 
